@@ -649,7 +649,7 @@ package nitro
 
 // LoadFromDisk: no index panics whatever the manifests contain, and a manifest decode error is never ignored.
 // Every loop is a full cut (the function is long): what is known after a loop is its invariant.
-//@ pure ldLens(n int, readers []FileReader, errors []error) bool = len(readers) == n && len(errors) == n
+//@ pure ldLens(n int, readers []FileReader, errors []error) bool = len(readers) == n && len(errors) == n && (ptr(readers) + 16 * len(readers) <= ptr(errors) || ptr(errors) + 16 * len(errors) <= ptr(readers))
 
 //@ func (*Nitro).LoadFromDisk
 //@ props C11
@@ -726,8 +726,15 @@ package nitro
 //@ modifies s.refCount, heap($alive), heap($brk), heap(skiplist.Skiplist.$set), heap(skiplist.Node.$nx), heap(skiplist.Node.$del), heap(Nitro.lastGCSn), heap(Nitro.isGCRunning), mem(int32), heap(skiplist.Skiplist.$phys), heap(skiplist.Skiplist.$n)
 //@ ensures s.refCount == old(s.refCount) - 1
 
+// Crash ordering (one necessary condition): the format-version manifest is written before the scan puts data into the shard files,
+// so that no crash point leaves new-format shard data without its version marker (a directory without the marker is
+// read as the legacy format). nWF counts ioutil.WriteFile calls of this StoreToDisk.
+//@ ghost global nWF int
 //@ func (*Nitro).StoreToDisk
 //@ props C12
+//@ ghost-pre nWF := 0
+//@ at-call ioutil.WriteFile nWF := nWF + 1
+//@ at-call (*nitro.Nitro).Visitor assert[version-manifest-first] nWF >= 1
 //@ use errs-nonnil
 //@ requires m != nil && snap != nil && concurr >= 1
 //@ modifies *
@@ -738,8 +745,8 @@ package nitro
 //@ loop 1 cut
 //@ loop 2 cut
 //@ loop 3 cut
-//@ loop 1 invariant[ctx] m != nil && snap != nil && closeFail == old(closeFail) && 0 <= shard && shards >= 1 && len(writers) == shards && len(files) == shards && len(checksums) == shards
-//@ loop 2 invariant[ctx] m != nil && snap != nil && closeFail == old(closeFail) && 0 <= id && len(writers) == shards && len(files) == shards && len(checksums) == shards && len(deltaWriters) == len(deltaFiles) && len(deltaChecksums) == len(deltaWriters)
+//@ loop 1 invariant[ctx] nWF == 0 && m != nil && snap != nil && closeFail == old(closeFail) && 0 <= shard && shards >= 1 && len(writers) == shards && len(files) == shards && len(checksums) == shards
+//@ loop 2 invariant[ctx] nWF == 0 && m != nil && snap != nil && closeFail == old(closeFail) && 0 <= id && len(writers) == shards && len(files) == shards && len(checksums) == shards && len(deltaWriters) == len(deltaFiles) && len(deltaChecksums) == len(deltaWriters)
 //@ loop 3 invariant[ctx] m != nil && closeFail == old(closeFail) && -1 <= rangeindex && rangelen == len(writers) && len(checksums) == len(writers) && err == nil
 //@ ensures[close-error] err == nil ==> closeFail == old(closeFail)
 
